@@ -26,7 +26,7 @@ type laRun struct {
 }
 
 // e2e runs (once) the end-to-end scenario of a stub-dependent kernel.
-func (lr *laRun) e2e(name, dir string) (bool, string) {
+func (lr *laRun) e2e(name, dir string, ces ...*layera.Counterexample) (bool, string) {
 	if lr.e2eDone == nil {
 		lr.e2eDone = map[string][2]string{}
 	}
@@ -36,7 +36,18 @@ func (lr *laRun) e2e(name, dir string) (bool, string) {
 	f := e2eScenarios[name]
 	rep, detail := false, "no scenario"
 	if f != nil {
-		bad, err := f(lr.Opt.Repo, dir)
+		vals := map[string]string{}
+		for _, ce := range ces {
+			if ce == nil {
+				continue
+			}
+			for _, v := range ce.Vals {
+				if v.Kind == "string" || v.Kind == "atom" {
+					vals[v.Tag] = string(v.Bytes)
+				}
+			}
+		}
+		bad, err := f(lr.Opt.Repo, dir, vals)
 		switch {
 		case err != nil:
 			detail = "scenario failed to run: " + err.Error()
@@ -131,7 +142,7 @@ func (lr *laRun) finish(res *laResult, extra map[string]interface{}) int {
 				ci++
 				if kr.Kernel.E2E != "" {
 					res.Session.WriteReplay(ce, dir)
-					rep, detail := lr.e2e(kr.Kernel.E2E, filepath.Join(dir, "e2e"))
+					rep, detail := lr.e2e(kr.Kernel.E2E, filepath.Join(dir, "e2e"), ce)
 					os.WriteFile(filepath.Join(dir, "e2e.txt"), []byte(detail), 0o644)
 					validated++
 					if !rep {
@@ -212,6 +223,27 @@ func (lr *laRun) finish(res *laResult, extra map[string]interface{}) int {
 			violations++
 			fmt.Printf("VIOLATION property=%s replay=%s\n", prop, dir)
 			fmt.Printf("  kernel=%s panics (%s: %s) on %d paths; inputs: %s\n", kr.Kernel.Name, id, ce.Note, st.Failed, fmtVals(ce))
+		}
+		// translator validation: a few passing paths are re-run natively with the solver's model
+		if violations == 0 && os.Getenv("VERIF_NO_TV") == "" {
+			for si, ce := range kr.PassSamples {
+				if si >= 2 && !opt.Thorough() {
+					break
+				}
+				dir := filepath.Join(replayBase, fmt.Sprintf("tv_%s_%d", strings.ReplaceAll(kr.Kernel.Name, ".", "_"), si))
+				res.Session.WriteReplay(ce, dir)
+				ok, out := layera.RunReplayClean(dir)
+				if ok {
+					validated++
+					os.RemoveAll(dir)
+				} else if kr.Kernel.ReplayTries > 0 {
+					os.RemoveAll(dir) // behaviour depends on Go's map randomisation: not comparable
+				} else {
+					os.WriteFile(filepath.Join(dir, "replay.out"), []byte(out), 0o644)
+					fmt.Printf("TOOL-ERROR: translator validation failed for kernel %s: the native run of a passing path deviates, see %s\n", kr.Kernel.Name, dir)
+					fatal = append(fatal, "translator validation "+kr.Kernel.Name)
+				}
+			}
 		}
 		// vacuity: every assertion and reach witness must be hit on at least one feasible path
 		for id, n := range kr.Reach {
